@@ -1411,7 +1411,13 @@ class C08S(PropOracle):
     def on_end(self, w, vp, d):
         o = w.obs
         c = o.cluster or {}
-        if not c.get("is_complete") or w.data.get("faulty"):
+        faults = w.data.get("faults") or []
+        transient_only = bool(faults) and all(f[1].startswith("cmd:squeue") and f[2] == "fail-all" for f in faults)
+        if w.data.get("faulty") and not transient_only:
+            return
+        if not c.get("is_complete"):
+            if transient_only:
+                self.v(w, f"after a failed status query {faults} the collected results never reached a submitter round: submission incomplete at the end", "completion-not-reported")
             return
         rows = disk_rows(w)
         s = o.jobstatus or {}
